@@ -57,10 +57,47 @@ def run_scn(scn):
     proto = HTTP11ClientProtocol()
     tr = StringTransport()
     proto.makeConnection(tr)
-    req = Request(b"HEAD" if scn["head"] else b"GET", b"/x", Headers({b"host": [b"h"]}), None, persistent=scn.get("persistent", False))
-    d = proto.request(req)
-    d.addCallbacks(on_resp, on_fail)
-    ev = [{"e": "start"}]
+
+    def issue():
+        req = Request(b"HEAD" if scn["head"] else b"GET", b"/x", Headers({b"host": [b"h"]}), None, persistent=scn.get("persistent", False))
+        proto.request(req).addCallbacks(on_resp, on_fail)
+
+    first = scn.get("first")
+    if first is None:
+        issue()
+    else:
+        # The request under observation is a FOLLOW-UP: it is issued, re-entrantly, from the connectionLost
+        # callback of the body consumer of an earlier, persistent request on the same protocol (what
+        # readBody(...).addCallback(agent.request) does with a persistent pool).  The earlier exchange is
+        # only driven here (it is validated by the ordinary executions); recording starts with the follow-up.
+        issued = []
+
+        class FirstConsumer(Protocol):
+            def connectionLost(self, reason):
+                if not issued:
+                    issued.append(reason.type.__name__)
+                    issue()
+
+        c1 = FirstConsumer()
+        h1 = []
+
+        def first_resp(resp):
+            h1.append(resp)
+            if first["dbody"] == "now":
+                resp.deliverBody(c1)
+
+        proto.request(Request(b"HEAD" if first["head"] else b"GET", b"/first", Headers({b"host": [b"h"]}), None, persistent=True)).addCallbacks(first_resp, lambda f: None)
+        pos1 = 0
+        fs = bytes(first["stream"])
+        for k in first["cuts"]:
+            proto.dataReceived(fs[pos1:pos1 + k])
+            pos1 += k
+        if first["dbody"] == "later" and h1:
+            h1[0].deliverBody(c1)
+        if not issued:
+            from harness.core import MachineryError
+            raise MachineryError("chained scenario: the first exchange did not end with the consumer's connectionLost: %r" % fs)
+    ev = [{"e": "start"}] if not obs else [{"e": "start:callbacks-before-any-response", "obs": list(obs)}]
 
     def take():
         o = list(obs)
@@ -139,6 +176,8 @@ def gen_stream(rng, head, force=None):
     framing = rng.choice(["length", "chunked", "close"]) if ver == b"HTTP/1.1" else rng.choice(["length", "close"])
     if force is not None and not nobody:
         framing = force[0]
+        if framing == "empty":               # Content-Length: 0
+            framing, body = "length", b""
     tail = b""
     if nobody:
         r = rng.random()
@@ -210,8 +249,49 @@ def scns_for_stream(rng, stream, head, desc, positions, modes):
     return out
 
 
+def chain_scns(rng, nmax):
+    """Follow-up requests issued re-entrantly from the first consumer's connectionLost: first exchanges of every
+    self-delimiting kind (deliverBody in the callback or after the whole response), second responses of every
+    framing kind incl. body-less ones, loss at sampled positions, one-piece and random segmentation."""
+    out = []
+    firsts = []
+    for kind in [("length", 0), ("chunked", 1), ("nobody", 0), ("empty", 0)]:
+        while True:
+            st, desc, hl = gen_stream(rng, False, kind)
+            if b"onnection: close" not in bytes(st):
+                break
+        firsts.append((st, desc))
+    seconds = []
+    for head, kind in [(False, ("length", 0)), (False, ("chunked", 0)), (False, ("close", 0)), (False, ("nobody", 0)), (False, ("empty", 0)),
+                       (True, ("nobody", 0)), (False, ("nobody", 1)), (False, ("empty", 2))]:
+        st, desc, hl = gen_stream(rng, head, kind)
+        seconds.append((st, desc, hl, head))
+    i = 0
+    for fst, fdesc in firsts:
+        for fdb in ("now", "later"):
+            for st, desc, hl, head in seconds:
+                n = len(st)
+                for p in sorted({hl - 1, hl, n - 1, n} | {rng.randint(0, n)}):
+                    if not 0 <= p <= n:
+                        continue
+                    i += 1
+                    nf = len(fst)
+                    fc = [nf] if i % 3 else cuts_for(rng, nf, "random")
+                    cuts = cuts_for(rng, p, "one" if i % 2 else "random")
+                    out.append({"stream": st, "head": head, "dbody": ["now", "later", "now", "never"][i % 4], "cuts": cuts,
+                                "desc": desc, "later_at": rng.choice([0, 1, len(cuts) + 1]), "clean": i % 2 == 0, "persistent": i % 5 != 0,
+                                "first": {"stream": fst, "head": False, "dbody": fdb, "cuts": fc, "desc": fdesc}})
+    rng.shuffle(out)
+    return out[:nmax]
+
+
 def describe(scn):
-    return "%s %s, deliverBody %s%s, segments %s then connection %s; stream %r" % (
+    pre = ""
+    if scn.get("first"):
+        f = scn["first"]
+        pre = "FOLLOW-UP request issued from the connectionLost of the consumer of a first persistent GET (%s, deliverBody %s, segments %s, stream %r): " % (
+            f.get("desc", ""), f["dbody"], f["cuts"], bytes(f["stream"]))
+    return pre + "%s %s, deliverBody %s%s, segments %s then connection %s; stream %r" % (
         "HEAD" if scn["head"] else "GET", scn.get("desc", ""), scn["dbody"],
         (" after step %d" % scn["later_at"]) if scn["dbody"] == "later" else "", scn["cuts"],
         "closed" if scn.get("clean", True) else "lost", bytes(scn["stream"]))
@@ -225,7 +305,7 @@ def fingerprint(scn, trace, rej):
     fr = (d[-2] if len(d) >= 2 and d[-1].isdigit() else "nobody") if d else "?"
     total = sum(scn["cuts"])
     where = "complete" if total == len(scn["stream"]) else "truncated"
-    return "%s/%s/%s/%s/%s/[%s]" % ("HEAD" if scn["head"] else "GET", fr, scn["dbody"], where, e["e"], kinds)
+    return "%s%s/%s/%s/%s/%s/[%s]" % ("follow-up:" if scn.get("first") else "", "HEAD" if scn["head"] else "GET", fr, scn["dbody"], where, e["e"], kinds)
 
 
 def mutate(t, rng):
@@ -288,6 +368,9 @@ def run(ctx):
         else:
             positions = range(n + 1)
         scns += scns_for_stream(ctx.rng, stream, head, desc, positions, ["one", "tail", "random"])
+    chained = chain_scns(ctx.rng, ctx.pick(240, 4000))
+    scns += chained
+    ctx.extra["follow_up_request_executions"] = len(chained)
     ctx.exhaustive = False
     ctx.extra["streams"] = nstreams
     ctx.extra["rule_positions"] = "connection loss at every octet position of every generated stream (quick: 40 sampled positions plus those around the end of the head and of the message for streams longer than 60 octets), each with one-piece, octet-wise-tail and random segmentation, plus every two-piece segmentation of the complete stream"
